@@ -1,3 +1,4 @@
+mod app;
 mod common;
 mod sexp;
 mod types;
@@ -21,6 +22,20 @@ fn main() {
                 }
                 let case = sexp::parse(&line);
                 let r = std::panic::catch_unwind(std::panic::AssertUnwindSafe(|| unit::run_case(&mut cx, &case)));
+                match r {
+                    Ok(s) => writeln!(out, "{s}").unwrap(),
+                    Err(_) => writeln!(out, "panic").unwrap(),
+                }
+            }
+        }
+        "app" => {
+            for line in stdin.lock().lines() {
+                let line = line.unwrap();
+                if line.trim().is_empty() {
+                    continue;
+                }
+                let sc = sexp::parse(&line);
+                let r = std::panic::catch_unwind(std::panic::AssertUnwindSafe(|| app::run_scenario(&sc)));
                 match r {
                     Ok(s) => writeln!(out, "{s}").unwrap(),
                     Err(_) => writeln!(out, "panic").unwrap(),
